@@ -591,7 +591,14 @@ func shieldScenario(c *Chain, rng interface{ Intn(int) int }, kind int, sc Shiel
 			loss = shield
 		}
 	case 1:
-		withdraw(jitter(collateral - shield/2)) // old and large
+		// old and large; in every other history (own random stream) as two requests of one block — two entries in one slot of the
+		// queue, the smaller one behind the larger — both of which the coming claim's lock has to postpone
+		if old := jitter(collateral - shield/2); newRng(c.Cfg.Seed*31+11).Intn(2) == 0 && old > shield/8+1 && shield >= 8 {
+			withdraw(old - shield/8)
+			withdraw(shield / 8)
+		} else {
+			withdraw(old)
+		}
 		if !c.Advance(sc.Withdraw - unit - time.Duration(rng.Intn(3))*time.Second) {
 			return false
 		}
